@@ -35,13 +35,16 @@ type c14Case struct {
 	Annotations map[string]string
 	PrevCanary  bool // status.canary already set before the reconcile
 	Valid       bool // canary-valid names the matching set
+	// PrevCond: the ExtendedDaemonSet status already carries Canary-Paused / Canary-Failed conditions from an earlier
+	// situation ("", "True" or "False"), a true one with another reason and naming another replica set
+	PrevPausedCond, PrevFailedCond string
 }
 
 func (k c14Case) String() string { b, _ := json.Marshal(k); return string(b) }
 
 // TestC14StatusFunction: the status function alone, over generated replica-set statuses.
 func TestC14StatusFunction(t *testing.T) {
-	rec := evid.New("TestC14StatusFunction", "C14", "1-3 replica sets of one ExtendedDaemonSet (created by the real reconciler for templates A,B,C) with generated counters (incl. leftover sets with non-zero counters, and sets that are being deleted under a finalizer), Canary-Paused / Canary-Failed conditions (absent, True, False, with reasons), which of them is recorded active, pause/freeze/canary annotations (true/false/absent), canary strategy present or absent, status.canary already set or not; one EDS reconcile; oracle: stored status = reference status function of what was read (sums, desired/upToDate/ignored from active and canary set, state, reason, conditions, canary block); non-trivial = >= 2 replica sets with non-zero counters or a canary fact/annotation that changes state/reason/conditions; distinct by case rendering")
+	rec := evid.New("TestC14StatusFunction", "C14", "1-3 replica sets of one ExtendedDaemonSet (created by the real reconciler for templates A,B,C) with generated counters (incl. leftover sets with non-zero counters, and sets that are being deleted under a finalizer), Canary-Paused / Canary-Failed conditions (absent, True, False, with reasons), which of them is recorded active, pause/freeze/canary annotations (true/false/absent), canary strategy present or absent, status.canary already set or not, Canary-Paused / Canary-Failed conditions left in the ExtendedDaemonSet status by an earlier situation (absent, True with another reason and replica set, False); EDS reconciles; oracle: stored status = reference status function of what was read (sums, desired/upToDate/ignored from active and canary set, state, reason, conditions - a true Canary-Paused condition with the current pause reason and naming the current canary set -, canary block); non-trivial = >= 2 replica sets with non-zero counters or a canary fact/annotation that changes state/reason/conditions; distinct by case rendering")
 	t.Cleanup(func() {
 		if !t.Failed() {
 			rec.Done()
@@ -71,6 +74,8 @@ func TestC14StatusFunction(t *testing.T) {
 		}
 		k.PrevCanary = rapid.Bool().Draw(rt, "prevCanary")
 		k.Valid = rapid.IntRange(0, 4).Draw(rt, "valid") == 0
+		k.PrevPausedCond = rapid.SampledFrom(condVals).Draw(rt, "prevPausedCond")
+		k.PrevFailedCond = rapid.SampledFrom(condVals).Draw(rt, "prevFailedCond")
 
 		c := sim.New(sim.Options{})
 		for i := 0; i < 3; i++ {
@@ -135,6 +140,14 @@ func TestC14StatusFunction(t *testing.T) {
 			x.Status.Canary = nil
 			if k.PrevCanary && k.Strategy {
 				x.Status.Canary = &edsv1.ExtendedDaemonSetStatusCanary{ReplicaSet: matching, Nodes: []string{"n0"}}
+			}
+			x.Status.Conditions = nil
+			old := metav1.NewTime(now.Add(-10 * time.Minute))
+			if k.PrevPausedCond != "" {
+				x.Status.Conditions = append(x.Status.Conditions, edsv1.ExtendedDaemonSetCondition{Type: edsv1.ConditionTypeEDSCanaryPaused, Status: corev1.ConditionStatus(k.PrevPausedCond), Reason: "StaleReason", Message: "canary paused with ers: foo-stale", LastTransitionTime: old, LastUpdateTime: old})
+			}
+			if k.PrevFailedCond != "" {
+				x.Status.Conditions = append(x.Status.Conditions, edsv1.ExtendedDaemonSetCondition{Type: edsv1.ConditionTypeEDSCanaryFailed, Status: corev1.ConditionStatus(k.PrevFailedCond), Reason: "CanaryFailed", Message: "canary failed with ers: foo-stale", LastTransitionTime: old, LastUpdateTime: old})
 			}
 		})
 		c.Advance(time.Minute)
